@@ -7,7 +7,7 @@ import layoutlib as L
 import vlib
 
 MANIFEST = {
-    "text": "Ordering is a Coq theorem about the model of StorageLayout::add (push + stable sort) for ANY sequence of added entries: the layout is sorted by (slot index, bit offset) and is a permutation of what was added; the sort key inside the model is read from src/layout.rs on every run (changing it breaks the proof). 'Every entry lies inside its slot' rests on the lifting passes only creating sub-words, shifted values and packed spans that fit in 256 bits (stage lemmas of the packing passes) and is evaluated on the implementation's layouts for mask-and-shift code with shifts and mask positions anywhere in 0..2^256, nested packed encodings and mutated real contracts. abi_type_for / the layout loop are modelled (Abi.v) with the guard on nested encodings read from the source (abi_nested_fit): abi_rows_in_slot proves, for ALL class tables and without any hypothesis on nested classes, that every reported row has offset < 256 and known widths end <= 256 as soon as the slot's OWN class starts its spans inside the slot and sized-word spans end inside it (what the lifting passes establish and Packed x Packed re-partitioning preserves); abi_nested_in_word: rows of nested encodings stay inside the word of their enclosing span (struct members). Each run also dumps the real final classes (tc-classes) and Coq decides those hypotheses and re-computes the rows with the model (c12_class_code). THROUGH UNIFICATION (props/C12_unify.v): C12_unify_keeps_types_in_slot -- on a judgement set inside the slot (tstate_in 256, decidable: spans start < 256 and end <= 256, sized words <= 256 bits, allocated variables only) unify never panics and every resolved type is again inside the slot, for every iteration order and fuel (C12_unify_preserves_bound / C12_merge_keeps_bound: for any bound 0 < B <= usize::MAX); C12_rows_in_slot_after_unify composes it with abi_rows_in_slot, leaving one hypothesis (room for a span whose own class resolved to a sized word), which unification does not maintain and which is decided per run on the dumped classes. With the pinned, unguarded flattening the theorem is refuted (C12_nested_pinned_refuted) and the class of the former finding K-nested is reported as a violation. END TO END: the stage models are composed into one executable model of the whole analysis (Pipeline.v: disassembly, VM, all_values, nine passes, registration, rules, unification under the hooked iteration orders, abi_type_for, layout), tied to the real `analyze` by a whole-program differential run in three order modes (stage of first disagreement reported), and pipeline_layout_sorted proves that any layout the composed model returns is sorted by (slot index, bit offset). IN-SLOT END TO END (props/C12_pipeline.v): pipeline_rows_in_slot -- a run of the composed model that returns a layout went through a judgement set st and a forest (s, n) = unify st; if st lies inside the slot (tstate_in 256) and sized words inside spans have room in the resulting classes (room_ok) every row of the layout starts inside its slot and known widths end inside it, for every program, configuration, keccak, table, order mode and fuel.",
+    "text": "Ordering is a Coq theorem about the model of StorageLayout::add (push + stable sort) for ANY sequence of added entries: the layout is sorted by (slot index, bit offset) and is a permutation of what was added; the sort key inside the model is read from src/layout.rs on every run (changing it breaks the proof). 'Every entry lies inside its slot' rests on the lifting passes only creating sub-words, shifted values and packed spans that fit in 256 bits (stage lemmas of the packing passes) and is evaluated on the implementation's layouts for mask-and-shift code with shifts and mask positions anywhere in 0..2^256, nested packed encodings and mutated real contracts. abi_type_for / the layout loop are modelled (Abi.v) with the guard on nested encodings read from the source (abi_nested_fit): abi_rows_in_slot proves, for ALL class tables and without any hypothesis on nested classes, that every reported row has offset < 256 and known widths end <= 256 as soon as the slot's OWN class starts its spans inside the slot and sized-word spans end inside it (what the lifting passes establish and Packed x Packed re-partitioning preserves); abi_nested_in_word: rows of nested encodings stay inside the word of their enclosing span (struct members). Each run also dumps the real final classes (tc-classes) and Coq decides those hypotheses and re-computes the rows with the model (c12_class_code). THROUGH UNIFICATION (props/C12_unify.v): C12_unify_keeps_types_in_slot -- on a judgement set inside the slot (tstate_in 256, decidable: spans start < 256 and end <= 256, sized words <= 256 bits, allocated variables only) unify never panics and every resolved type is again inside the slot, for every iteration order and fuel (C12_unify_preserves_bound / C12_merge_keeps_bound: for any bound 0 < B <= usize::MAX); C12_rows_in_slot_after_unify composes it with abi_rows_in_slot, leaving one hypothesis (room for a span whose own class resolved to a sized word), which unification does not maintain and which is decided per run on the dumped classes. With the pinned, unguarded flattening the theorem is refuted (C12_nested_pinned_refuted) and the class of the former finding K-nested is reported as a violation. END TO END: the stage models are composed into one executable model of the whole analysis (Pipeline.v: disassembly, VM, all_values, nine passes, registration, rules, unification under the hooked iteration orders, abi_type_for, layout), tied to the real `analyze` by a whole-program differential run in three order modes (stage of first disagreement reported), and pipeline_layout_sorted proves that any layout the composed model returns is sorted by (slot index, bit offset). IN-SLOT END TO END (props/C12_pipeline.v): pipeline_rows_in_slot -- a run of the composed model that returns a layout went through a judgement set st and a forest (s, n) = unify st; if st lies inside the slot (tstate_in 256) and sized words inside spans have room in the resulting classes (room_ok) every row of the layout starts inside its slot and known widths end inside it, for every program, configuration, keccak, table, order mode and fuel. Widths that do not come from a mask are searched too: words read back from bulk copies (call data, code, return data, external code) of sizes around the word size and around the per-operation memory limit, first / middle / last words stored to constant slots.",
     "note": "Trusted: Coq kernel; translator (sort key); slice::sort_by_key modelled as a stable insertion sort, not verified; harness.",
     "technique": "Coq proof (insertion-sort invariant, permutation) over a translated sort key; layout predicate evaluated inside Coq on "
                  "the implementation's output",
@@ -39,6 +39,25 @@ def check(ctx):
     for _ in range(60 if ctx.quick else 800):
         vs = gen.random_vars(rng, rng.randrange(1, 8))
         progs.setdefault(gen.compile_layout(vs, rng), "idioms")
+    # widths that do not come from a mask: words read back from a bulk copy (call data, code, return data, external code) of
+    # every size around the word size and around the per-operation memory limit (394 bytes here: not a multiple of 32), each
+    # word of the copied range -- the first, one in the middle, the last two, the one behind -- stored to its own slot
+    def copy_prog(op, size, dest, words):
+        a = gen.Asm()
+        a.push(size).push(0).push(dest)
+        if op == "EXTCODECOPY":
+            a.op("CALLER")
+        a.op(op)
+        for i, k in enumerate(words):
+            a.push(dest + 32 * k).op("MLOAD").push(i).op("SSTORE")
+        a.op("STOP")
+        return a.assemble()
+    for op in ("CALLDATACOPY", "CODECOPY", "RETURNDATACOPY", "EXTCODECOPY"):
+        for size in ([20, 33, 64, 100, 394, 395, 500, 1000, 2 ** 16 + 5] if ctx.quick else
+                     [1, 20, 31, 32, 33, 63, 64, 65, 100, 200, 384, 393, 394, 395, 416, 500, 1000, 4096, 2 ** 16 + 5, 2 ** 64 - 1]):
+            nwords = min(size, 394) // 32 + 1
+            words = sorted(set(k for k in (0, nwords // 2, nwords - 2, nwords - 1, nwords) if k >= 0))
+            progs.setdefault(copy_prog(op, size, rng.choice([0, 0x80]), words), "copied-words")
     real = [bytes.fromhex(h) for _, h in gen.real_contracts()]
     for _ in range(8 if ctx.quick else 120):
         if real:
